@@ -295,6 +295,19 @@ pub fn typed_conditions(s: &Setup, action: &EntityUID, pty: &ast::EntityType, rt
     Some(v)
 }
 
+/// typed-AST correspondence lines (`typedast shape|types`, see c14_typed.rs) for exactly the policies and the request
+/// environment this case hands to TPE
+pub fn typed_ast_lines(out: &mut Out, s: &Setup, action: &EntityUID, pty: &ast::EntityType, rty: &ast::EntityType, case: &str) {
+    let tc = Typechecker::new(&s.w.schema, ValidationMode::Strict);
+    let Some(env) = s.w.schema.unlinked_request_envs(ValidationMode::Strict).find(|env| env.action_entity_uid() == Some(action) && env.principal_entity_type() == Some(pty) && env.resource_entity_type() == Some(rty)) else { return };
+    let ssx = sx_schema::schema(&s.w.schema);
+    for pol in &s.pols {
+        if let Some(p) = s.ps.get(&PolicyID::from_string(&pol.id)) {
+            crate::c14_typed::emit(out, &tc, &ssx, p.template(), &env, &format!("{case} [tpe policy] {}", pol.text));
+        }
+    }
+}
+
 pub fn pols_sx(v: &[(String, &'static str, String)]) -> String {
     let mut o = String::new();
     for (id, eff, e) in v {
@@ -1190,6 +1203,10 @@ fn run_case(out: &mut Out, r: &mut Rng, s: &Setup, store: Vec<DEntity>, q: DRequ
         out.line(format!("(tpe {pfx})"), reply, case.clone());
         out.count("tpe_lines");
         prefix = Some(pfx);
+        // every 4th case: the typed-AST correspondence for exactly these policies in exactly this environment
+        if case.bytes().map(|b| b as u32).sum::<u32>() % 4 == 0 {
+            typed_ast_lines(out, &s, &au, pu.entity_type(), ru.entity_type(), &case);
+        }
     } else {
         out.count("typed_conditions_unavailable");
     }
